@@ -71,6 +71,7 @@ static const occa::dtype_t& dtypeOf(const std::string &n) {
   if (n == "float2") return occa::dtype::float2;
   if (n == "int4") return occa::dtype::int4;
   if (n == "double2") return occa::dtype::double2;
+  if (n == "unreg") { static occa::dtype_t unreg("unreg", 4); return unreg; }   // never registered
   fprintf(stderr, "hsim: unknown dtype %s\n", n.c_str());
   _exit(90);
 }
